@@ -74,6 +74,26 @@ func (s *composeSlice) emit(name string, pos int, att, exe int) {
 	}
 }
 
+// flagOracle evaluates C17's flag clause on what a listener / the function is handed: IsFirstAttempt <=> Attempts == 1 and
+// IsRetry <=> Attempts > 1 (checked only when Attempts did not change while the flags were read: hedges start concurrently).
+type flagged interface {
+	Attempts() int
+	IsFirstAttempt() bool
+	IsRetry() bool
+}
+
+func fl(e flagged) string {
+	a1 := e.Attempts()
+	first, retry := e.IsFirstAttempt(), e.IsRetry()
+	if a2 := e.Attempts(); a1 != a2 {
+		return ""
+	}
+	if first != (a1 == 1) || retry != (a1 > 1) {
+		return fmt.Sprintf("!flags(att=%d,first=%v,retry=%v)", a1, first, retry)
+	}
+	return ""
+}
+
 func (s *composeSlice) build() {
 	s.built = true
 	for pos, t := range s.polLines {
@@ -86,12 +106,12 @@ func (s *composeSlice) build() {
 			}
 			applyConds(t[3], func(e ...error) { b.HandleErrors(e...) }, func(a ...any) { b.HandleErrorTypes(a...) }, func(r int) { b.HandleResult(r) }, func(p func(int, error) bool) { b.HandleIf(p) })
 			applyConds(t[4], func(e ...error) { b.AbortOnErrors(e...) }, func(a ...any) { b.AbortOnErrorTypes(a...) }, func(r int) { b.AbortOnResult(r) }, func(p func(int, error) bool) { b.AbortIf(p) })
-			b.OnFailure(func(e failsafe.ExecutionEvent[int]) { s.emit("rp.onFailure", pos, e.Attempts(), e.Executions()) }).
-				OnSuccess(func(e failsafe.ExecutionEvent[int]) { s.emit("rp.onSuccess", pos, e.Attempts(), e.Executions()) }).
-				OnAbort(func(e failsafe.ExecutionEvent[int]) { s.emit("rp.onAbort", pos, e.Attempts(), e.Executions()) }).
-				OnRetriesExceeded(func(e failsafe.ExecutionEvent[int]) { s.emit("rp.onRetriesExceeded", pos, e.Attempts(), e.Executions()) }).
-				OnRetryScheduled(func(e failsafe.ExecutionScheduledEvent[int]) { s.emit("rp.onRetryScheduled", pos, e.Attempts(), e.Executions()) }).
-				OnRetry(func(e failsafe.ExecutionEvent[int]) { s.emit("rp.onRetry", pos, e.Attempts(), e.Executions()) })
+			b.OnFailure(func(e failsafe.ExecutionEvent[int]) { s.emit("rp.onFailure"+fl(e), pos, e.Attempts(), e.Executions()) }).
+				OnSuccess(func(e failsafe.ExecutionEvent[int]) { s.emit("rp.onSuccess"+fl(e), pos, e.Attempts(), e.Executions()) }).
+				OnAbort(func(e failsafe.ExecutionEvent[int]) { s.emit("rp.onAbort"+fl(e), pos, e.Attempts(), e.Executions()) }).
+				OnRetriesExceeded(func(e failsafe.ExecutionEvent[int]) { s.emit("rp.onRetriesExceeded"+fl(e), pos, e.Attempts(), e.Executions()) }).
+				OnRetryScheduled(func(e failsafe.ExecutionScheduledEvent[int]) { s.emit("rp.onRetryScheduled"+fl(e), pos, e.Attempts(), e.Executions()) }).
+				OnRetry(func(e failsafe.ExecutionEvent[int]) { s.emit("rp.onRetry"+fl(e), pos, e.Attempts(), e.Executions()) })
 			s.policies = append(s.policies, b.Build())
 		case "breaker":
 			// breakers are built at registration (they carry state across runs); listeners need the position of the
@@ -112,12 +132,12 @@ func (s *composeSlice) build() {
 				fbErr = parseErrTree(t[2])
 			}
 			b := fallback.BuilderWithFunc[int](func(exec failsafe.Execution[int]) (int, error) {
-				s.emit(fmt.Sprintf("fb.fn[%d,%s]", exec.LastResult(), errTreeStr(exec.LastError())), pos, exec.Attempts(), exec.Executions())
+				s.emit(fmt.Sprintf("fb.fn[%d,%s]", exec.LastResult(), errTreeStr(exec.LastError()))+fl(exec), pos, exec.Attempts(), exec.Executions())
 				return fbVal, fbErr
 			})
 			applyConds(t[3], func(e ...error) { b.HandleErrors(e...) }, func(a ...any) { b.HandleErrorTypes(a...) }, func(r int) { b.HandleResult(r) }, func(p func(int, error) bool) { b.HandleIf(p) })
-			b.OnFailure(func(e failsafe.ExecutionEvent[int]) { s.emit("fb.onFailure", pos, e.Attempts(), e.Executions()) }).
-				OnSuccess(func(e failsafe.ExecutionEvent[int]) { s.emit("fb.onSuccess", pos, e.Attempts(), e.Executions()) }).
+			b.OnFailure(func(e failsafe.ExecutionEvent[int]) { s.emit("fb.onFailure"+fl(e), pos, e.Attempts(), e.Executions()) }).
+				OnSuccess(func(e failsafe.ExecutionEvent[int]) { s.emit("fb.onSuccess"+fl(e), pos, e.Attempts(), e.Executions()) }).
 				OnFallbackExecuted(func(e failsafe.ExecutionDoneEvent[int]) { s.emit("fb.onFallbackExecuted", pos, e.Attempts(), e.Executions()) })
 			s.policies = append(s.policies, b.Build())
 		case "cache":
@@ -130,8 +150,8 @@ func (s *composeSlice) build() {
 				b.CacheIf(predicate(int(atoi(t[3]))))
 			}
 			b.OnCacheHit(func(e failsafe.ExecutionDoneEvent[int]) { s.emit("ca.onHit", pos, e.Attempts(), e.Executions()) }).
-				OnCacheMiss(func(e failsafe.ExecutionEvent[int]) { s.emit("ca.onMiss", pos, e.Attempts(), e.Executions()) }).
-				OnResultCached(func(e failsafe.ExecutionEvent[int]) { s.emit("ca.onCache", pos, e.Attempts(), e.Executions()) })
+				OnCacheMiss(func(e failsafe.ExecutionEvent[int]) { s.emit("ca.onMiss"+fl(e), pos, e.Attempts(), e.Executions()) }).
+				OnResultCached(func(e failsafe.ExecutionEvent[int]) { s.emit("ca.onCache"+fl(e), pos, e.Attempts(), e.Executions()) })
 			s.policies = append(s.policies, b.Build())
 		case "timeout":
 			to := timeout.Builder[int](composeTimeout).OnTimeoutExceeded(func(e failsafe.ExecutionDoneEvent[int]) {
@@ -141,7 +161,7 @@ func (s *composeSlice) build() {
 		case "hedge":
 			b := hedgepolicy.BuilderWithDelay[int](composeHedgeDelay).WithMaxHedges(int(atoi(t[1])))
 			applyConds(t[2], func(e ...error) { b.CancelOnErrors(e...) }, func(a ...any) { b.CancelOnErrorTypes(a...) }, func(r int) { b.CancelOnResult(r) }, func(p func(int, error) bool) { b.CancelIf(p) })
-			b.OnHedge(func(e failsafe.ExecutionEvent[int]) { s.emit("hp.onHedge", pos, e.Attempts(), e.Executions()) })
+			b.OnHedge(func(e failsafe.ExecutionEvent[int]) { s.emit("hp.onHedge"+fl(e), pos, e.Attempts(), e.Executions()) })
 			s.policies = append(s.policies, b.Build())
 		}
 	}
@@ -177,8 +197,8 @@ func (s *composeSlice) exec(t []string) string {
 		}
 		b.WithDelay(time.Duration(delay))
 		s.now = t0
-		b.OnFailure(func(e failsafe.ExecutionEvent[int]) { s.emit("cb.onFailure", s.posOf("breaker", id), e.Attempts(), e.Executions()) }).
-			OnSuccess(func(e failsafe.ExecutionEvent[int]) { s.emit("cb.onSuccess", s.posOf("breaker", id), e.Attempts(), e.Executions()) }).
+		b.OnFailure(func(e failsafe.ExecutionEvent[int]) { s.emit("cb.onFailure"+fl(e), s.posOf("breaker", id), e.Attempts(), e.Executions()) }).
+			OnSuccess(func(e failsafe.ExecutionEvent[int]) { s.emit("cb.onSuccess"+fl(e), s.posOf("breaker", id), e.Attempts(), e.Executions()) }).
 			OnStateChanged(func(e circuitbreaker.StateChangedEvent) {
 				m := e.Metrics()
 				s.mu.Lock()
@@ -193,7 +213,7 @@ func (s *composeSlice) exec(t []string) string {
 	case "bh":
 		id := len(s.bulks)
 		cap := int(atoi(t[1]))
-		bh := bulkhead.Builder[int](uint(cap)).OnFull(func(e failsafe.ExecutionEvent[int]) { s.emit("bh.onFull", s.posOf("bulkhead", id), e.Attempts(), e.Executions()) }).Build()
+		bh := bulkhead.Builder[int](uint(cap)).OnFull(func(e failsafe.ExecutionEvent[int]) { s.emit("bh.onFull"+fl(e), s.posOf("bulkhead", id), e.Attempts(), e.Executions()) }).Build()
 		s.bulks = append(s.bulks, bh)
 		s.bulkCaps = append(s.bulkCaps, cap)
 		s.bulkExt = append(s.bulkExt, 0)
@@ -320,7 +340,7 @@ func (s *composeSlice) run(async bool, ck string, scriptText string, x string) s
 	fn := func(exec failsafe.Execution[int]) (int, error) {
 		wg.Add(1)
 		defer wg.Done()
-		s.emit(fmt.Sprintf("fn[%d,%s]", exec.LastResult(), errTreeStr(exec.LastError())), 0, exec.Attempts(), exec.Executions())
+		s.emit(fmt.Sprintf("fn[%d,%s]", exec.LastResult(), errTreeStr(exec.LastError()))+fl(exec), 0, exec.Attempts(), exec.Executions())
 		fnMu.Lock()
 		inv++
 		if inv > 3000 {
